@@ -3,6 +3,10 @@ package main
 import (
 	"bufio"
 	"bytes"
+	"crypto/sha256"
+	"encoding/hex"
+	"encoding/json"
+	"sync/atomic"
 	"context"
 	"fmt"
 	"os"
@@ -33,8 +37,86 @@ var solvers = []solverSpec{
 	}},
 }
 
+type cachedRun struct {
+	Results []string `json:"results"`
+	Times   []int64  `json:"times"`
+	Errs    []string `json:"errs"`
+	Out     string   `json:"out,omitempty"`
+}
+
+// cacheDir holds solver answers keyed by the SHA-256 of the exact query text, solver and time
+// limit. Identical queries (the same unit shared by several properties, or an unchanged unit
+// on a later run) are answered from it; any change to the code or a contract changes the text.
+func cacheDir() string {
+	if os.Getenv("GOVC_NOCACHE") != "" {
+		return ""
+	}
+	d := os.Getenv("GOVC_CACHE")
+	if d == "" {
+		d = "/verif/.cache"
+	}
+	if os.MkdirAll(d, 0o755) != nil {
+		return ""
+	}
+	return d
+}
+
+func cacheKey(solver string, ms int, file string) string {
+	data, err := os.ReadFile(file)
+	if err != nil {
+		return ""
+	}
+	h := sha256.New()
+	fmt.Fprintf(h, "%s|%d|", solver, ms)
+	h.Write(data)
+	return hex.EncodeToString(h.Sum(nil))
+}
+
+func cacheGet(key string) *cachedRun {
+	d := cacheDir()
+	if d == "" || key == "" {
+		return nil
+	}
+	data, err := os.ReadFile(filepath.Join(d, key+".json"))
+	if err != nil {
+		return nil
+	}
+	var c cachedRun
+	if json.Unmarshal(data, &c) != nil {
+		return nil
+	}
+	return &c
+}
+
+func cachePut(key string, c *cachedRun) {
+	d := cacheDir()
+	if d == "" || key == "" {
+		return
+	}
+	data, _ := json.Marshal(c)
+	tmp := filepath.Join(d, key+".tmp")
+	if os.WriteFile(tmp, data, 0o644) == nil {
+		os.Rename(tmp, filepath.Join(d, key+".json"))
+	}
+}
+
 // runSolverTimed streams the solver's stdout and records when each result line arrived.
 func runSolverTimed(s solverSpec, file string, ms int, hardMs int) ([]string, []int64, []string, error) {
+	key := cacheKey(s.name, ms, file)
+	if c := cacheGet(key); c != nil {
+		atomic.AddInt64(&cacheHits, 1)
+		return c.Results, c.Times, c.Errs, nil
+	}
+	r, t, e, err := runSolverTimedNoCache(s, file, ms, hardMs)
+	if err == nil {
+		cachePut(key, &cachedRun{Results: r, Times: t, Errs: e})
+	}
+	return r, t, e, err
+}
+
+var cacheHits int64
+
+func runSolverTimedNoCache(s solverSpec, file string, ms int, hardMs int) ([]string, []int64, []string, error) {
 	ctx, cancel := context.WithTimeout(context.Background(), time.Duration(hardMs)*time.Millisecond)
 	defer cancel()
 	argv := s.argv(file, ms)
@@ -79,6 +161,19 @@ func runSolver(s solverSpec, file string, ms int, hardMs int) (string, error) {
 }
 
 func runSolverCtx(parent context.Context, s solverSpec, file string, ms int, hardMs int) (string, error) {
+	key := cacheKey(s.name+"|standalone", ms, file)
+	if c := cacheGet(key); c != nil {
+		atomic.AddInt64(&cacheHits, 1)
+		return c.Out, nil
+	}
+	out, err := runSolverCtxNoCache(parent, s, file, ms, hardMs)
+	if err == nil && parent.Err() == nil {
+		cachePut(key, &cachedRun{Out: out})
+	}
+	return out, err
+}
+
+func runSolverCtxNoCache(parent context.Context, s solverSpec, file string, ms int, hardMs int) (string, error) {
 	ctx, cancel := context.WithTimeout(parent, time.Duration(hardMs)*time.Millisecond)
 	defer cancel()
 	argv := s.argv(file, ms)
